@@ -72,7 +72,11 @@ func c08Build(cs *c08Case, order string, hits *[]int, where string) *fiber.App {
 	sort.Slice(sorted, func(i, j int) bool { return len(sorted[i].Full) < len(sorted[j].Full) }) // parents before children
 	for _, a := range sorted {
 		apps[a.ID] = mk(a.ID)
-		apps[a.ID].Use(func(c fiber.Ctx) error { return c.Next() })
+		if where == "inside" { // the error is returned by a handler of the (outermost) mounted app the request enters
+			apps[a.ID].Use(raise)
+		} else {
+			apps[a.ID].Use(func(c fiber.Ctx) error { return c.Next() })
+		}
 	}
 	if order == "child-first" {
 		for i := len(sorted) - 1; i >= 0; i-- {
@@ -83,14 +87,14 @@ func c08Build(cs *c08Case, order string, hits *[]int, where string) *fiber.App {
 			apps[a.Parent].Use(join(a.Local), apps[a.ID])
 		}
 	}
-	if where == "last" {
+	if where == "last" || where == "inside" { // (inside: a request that enters no mounted app still has its error raised)
 		root.Use(raise)
 	}
 	return root
 }
 
 func TestC08(t *testing.T) {
-	reps := 3
+	reps := 2
 	if os.Getenv("VERIF_TIER") == "thorough" {
 		reps = 25
 	}
@@ -111,7 +115,7 @@ func TestC08(t *testing.T) {
 		}
 		path := join(cs.Path)
 		for _, order := range []string{"parent-first", "child-first"} {
-			for _, where := range []string{"first", "last"} {
+			for _, where := range []string{"first", "last", "inside"} {
 				var hits []int
 				var h = func() (hh func(method, p, kind string) (int, string)) {
 					defer func() {
